@@ -157,6 +157,11 @@ impl Gossip {
         if let Some((to_gossip_tx, from_gossip_tx, guard)) = self.senders.read().await.get(&topic)
             && guard.has_subscriptions()
         {
+            // Verification hook H4: another thread may drop the last handle for this topic right
+            // here, between the liveness check above and the reference increment below.
+            #[cfg(p2panda_p2panda_verif)]
+            p2panda_core::verif::yield_point("gossip.stream.between_check_and_clone").await;
+
             return Ok(GossipHandle::new(
                 topic,
                 max_message_size,
